@@ -25,7 +25,8 @@ Resident(st, k) == k \in EntKeys(st.ent)
 HasValue(ent, k) == k \in EntKeys(ent) /\ EntOf(ent, k).hasv
 
 Touched(e) ==
-  CASE e.op \in {"Memoize", "ReadResult", "IsMemoized", "ForgetCall"} -> {<<e.f, e.h>>}
+  \* (reading custom metadata may look the call's memento up: metadata kept with the data is found through it)
+  CASE e.op \in {"Memoize", "ReadResult", "IsMemoized", "ForgetCall", "ReadMetadata"} -> {<<e.f, e.h>>}
     [] e.op \in {"GetMementos", "IsAllMemoized"}                       -> SeqToSet(e.keys)
     [] OTHER                                                            -> {}
 
@@ -37,9 +38,9 @@ Scope(st, e) ==
     [] e.op = "ForgetEverything" -> EntKeys(st.ent)
     [] OTHER                     -> {}
 
-IsPut(e) == e.op \in {"Memoize", "ReadResult", "GetMementos"}
+IsPut(e) == e.op \in {"Memoize", "ReadResult", "GetMementos", "ReadMetadata"}
 RoWrites == {"Memoize", "ForgetCall", "ForgetFunction", "ForgetEverything", "WriteMetadata"}
-Inert(e) == \/ e.op \in {"ListFunctions", "ListMementos", "WriteMetadata", "ReadMetadata"}
+Inert(e) == \/ e.op \in {"ListFunctions", "ListMementos", "WriteMetadata"}
             \/ e.ro /\ e.op \in RoWrites
 
 Clauses(st, e) ==
